@@ -28,6 +28,9 @@ inductive Kind where
   | hd     -- non-trivial "handle": move construction / assignment transfer the value and *empty the source*,
            -- the move assignment has no self test, so `x = move(x)` empties `x` (a type for which a needless
            -- self-move-assignment is visible; std::erase_if never performs one)
+  | kp     -- trivially copyable key/payload pair (harness struct `KP`): the value `v` stands for key `v / 2` and
+           -- payload `v % 2`; `operator<` compares the keys only, `operator==` key and payload — so `==` is finer
+           -- than the equivalence induced by `<` (the values 2k and 2k+1 are equivalent and not equal)
   deriving DecidableEq, Repr, Inhabited
 
 inductive Ty where
@@ -45,6 +48,7 @@ def mvd : Kind → Nat → Nat
   | .triv, x => x
   | .nt, _ => MOVED
   | .hd, _ => EMPTIED
+  | .kp, x => x
 
 /-- the value of `x` after `x = etl::move(x)`: `int` and the class `NT` (which tests `this != &o`) keep it,
     the handle `HD` transfers to itself and then empties "the source" -/
@@ -52,6 +56,18 @@ def selfMv : Kind → Nat → Nat
   | .triv, x => x
   | .nt, x => x
   | .hd, _ => EMPTIED
+  | .kp, x => x
+
+/-- `operator<` of the element type of kind `k` (the harness classes): the value order, except for the key/payload
+    pair, which is ordered by its key alone -/
+def ltOf : Kind → Nat → Nat → Bool
+  | .kp, x, y => decide (x / 2 < y / 2)
+  | _, x, y => decide (x < y)
+
+/-- `operator==` of the element type of kind `k`: the key/payload pair compares key and payload -/
+def eqOf : Kind → Nat → Nat → Bool
+  | .kp, x, y => x / 2 == y / 2 && x % 2 == y % 2
+  | _, x, y => x == y
 
 /-! ### smallest_size_t -/
 
@@ -162,21 +178,23 @@ def removeIf (k : Kind) (p : Nat → Bool) (l : V) : Except Err (V × Nat) := do
   if first ≠ l.length then removeLoop k p l first (first + 1) (l.length - first - 1)
   else .ok (l, first)
 
-/-- `equal(first1, last1, first2, p)`: `n` iterations left -/
-def equalLoop (a b : V) (i : Nat) : Nat → Except Err Bool
+/-- `equal(first1, last1, first2, p)` with `p = equal_to` (the element's `operator==`, here `eq`; `operator<` is
+    never consulted): `n` iterations left -/
+def equalLoop (eq : Nat → Nat → Bool) (a b : V) (i : Nat) : Nat → Except Err Bool
   | 0 => .ok true
   | n + 1 => do
     let x ← rd a i
     let y ← rd b i
-    if x ≠ y then .ok false else equalLoop a b (i + 1) n
+    if !eq x y then .ok false else equalLoop eq a b (i + 1) n
 
-/-- `lexicographical_compare`: `n = min(|a|,|b|)` iterations of the `for`, then the final test -/
-def lexLoop (a b : V) (i : Nat) : Nat → Except Err Bool
+/-- `lexicographical_compare` with `comp = less` (the element's `operator<`, here `lt`; `operator==` is never
+    consulted): `n = min(|a|,|b|)` iterations of the `for`, then the final test -/
+def lexLoop (lt : Nat → Nat → Bool) (a b : V) (i : Nat) : Nat → Except Err Bool
   | 0 => .ok (i == a.length && i != b.length)
   | n + 1 => do
     let x ← rd a i
     let y ← rd b i
-    if x < y then .ok true else if y < x then .ok false else lexLoop a b (i + 1) n
+    if lt x y then .ok true else if lt y x then .ok false else lexLoop lt a b (i + 1) n
 
 /-! ### static_vector: storage members -/
 
@@ -265,6 +283,79 @@ def insertRv (cap : Nat) (d : V) (pos x : Nat) : Except Err (V × Nat) :=
   else if pos > d.length then .error (.pre "assert_iterator_in_range")
   else moveInsert cap d pos [x]
 
+/-! ### static_vector: arguments that refer to an element of the vector itself
+
+`push_back`, `emplace_back`, `insert(pos, x)`, `insert(pos, n, x)`, `emplace(pos, x)`, `resize(sz, x)` and
+`assign(n, x)` take their argument by reference.  The caller may pass an element of the very vector
+(`v.insert(v.begin(), v[2])`); [sequence.reqmts] requires that to work for every one of them except
+`assign(n, t)` ("t is not a reference into a").  The members above are the special case in which the argument lives
+outside the vector; here the argument is an `Arg` and is *read from the buffer at the moment the code reads it*:
+an implementation that moves elements first and reads the argument afterwards gets a different value. -/
+
+/-- an argument passed as `T const&` / forwarding reference: a value that lives outside the vector, or element `i`
+    of the vector itself -/
+inductive Arg where
+  | val (x : Nat)
+  | elem (i : Nat)
+  deriving DecidableEq, Repr, Inhabited
+
+/-- reading through the reference, in the current state of the buffer -/
+def rdArg (d : V) : Arg → Except Err Nat
+  | .val x => .ok x
+  | .elem i => rd d i
+
+/-- storage `emplace_back(args...)`: `TETL_PRECONDITION(!full())`, then `new (end()) T(args...)` reads the argument -/
+def emplaceBackA (cap : Nat) (d : V) (a : Arg) : Except Err V :=
+  if d.length = cap then .error (.pre "emplace_back: !full()")
+  else do
+    let x ← rdArg d a
+    setSize cap (d.length + 1)
+    .ok (d ++ [x])
+
+/-- `push_back(U&& value)`: precondition, then `emplace_back(forward<U>(value))` -/
+def pushBackA (cap : Nat) (d : V) (a : Arg) : Except Err V :=
+  if d.length = cap then .error (.pre "push_back: !full()") else emplaceBackA cap d a
+
+/-- `while (n != 0) { push_back(x); --n; }`: `x` is read through the reference in every iteration -/
+def pushNA (cap : Nat) (d : V) (a : Arg) : Nat → Except Err V
+  | 0 => .ok d
+  | n + 1 => do
+    let d1 ← pushBackA cap d a
+    pushNA cap d1 a n
+
+/-- `insert(position, n, x)`: all reads of `x` happen while appending, before `rotate` moves anything -/
+def insertFillA (cap : Nat) (d : V) (pos n : Nat) (a : Arg) : Except Err (V × Nat) :=
+  if pos > d.length then .error (.pre "assert_iterator_in_range")
+  else if n > cap - d.length then .error (.pre "insert: n <= capacity() - size()")
+  else do
+    let b := d.length
+    let d1 ← pushNA cap d a n
+    let r ← rotate (d1.length + 1) d1 pos b d1.length
+    .ok (r.1, pos)
+
+/-- `insert(position, const_reference x)` -/
+def insertCrefA (cap : Nat) (d : V) (pos : Nat) (a : Arg) : Except Err (V × Nat) :=
+  if d.length = cap then .error (.pre "insert: !full()")
+  else if pos > d.length then .error (.pre "assert_iterator_in_range")
+  else insertFillA cap d pos 1 a
+
+/-- `emplace(position, args...)`: `value_type a(args...)` copies the argument into a local first, then
+    `move_insert(position, &a, &a + 1)` -/
+def emplaceA (cap : Nat) (d : V) (pos : Nat) (a : Arg) : Except Err (V × Nat) :=
+  if d.length = cap then .error (.pre "insert/emplace: !full()")
+  else if pos > d.length then .error (.pre "assert_iterator_in_range")
+  else do
+    let x ← rdArg d a
+    moveInsert cap d pos [x]
+
+/-- `stack::push(top())` / `push_back(back())` (`emplace`: `stack::emplace(top())` / `emplace_back(back())`):
+    `back()` (contract `!empty()`, then `detail::index`) yields the reference to the last element, the callee
+    reads through it -/
+def pushTop (cap : Nat) (d : V) (emplace : Bool) : Except Err V :=
+  if d.isEmpty then .error (.pre "back: !empty()")
+  else if emplace then emplaceBackA cap d (.elem (d.length - 1))
+  else pushBackA cap d (.elem (d.length - 1))
+
 /-! ### static_vector: erase, resize, assign -/
 
 /-- `erase(first, last)` -/
@@ -329,6 +420,28 @@ def assignRange (cap : Nat) (d : V) (xs : List Nat) : Except Err V :=
   else do
     let d0 ← clear cap d
     let r ← insertRange cap d0 0 xs
+    .ok r.1
+
+/-- `resize(sz, value)` with `value` a reference (see `Arg`) -/
+def resizeValA (cap : Nat) (d : V) (sz : Nat) (a : Arg) : Except Err V :=
+  if sz = d.length then .ok d
+  else if sz > d.length then
+    if sz > cap then .error (.pre "resize: sz <= capacity()")
+    else do
+      let r ← insertFillA cap d d.length (sz - d.length) a
+      .ok r.1
+  else do
+    let r ← eraseRange cap d (d.length - (d.length - sz)) d.length
+    .ok r.1
+
+/-- `assign(n, u)` with `u` a reference: `clear()` destroys every element, then `insert(begin(), n, u)` reads `u`.
+    With `u` an element of the vector this reads a destroyed object (`assignFillA_elem_reads_destroyed`); the standard
+    excludes the call ("t is not a reference into a", [sequence.reqmts]), histories do not contain it. -/
+def assignFillA (cap : Nat) (d : V) (n : Nat) (a : Arg) : Except Err V :=
+  if n > cap then .error (.pre "assign: n <= capacity()")
+  else do
+    let d0 ← clear cap d
+    let r ← insertFillA cap d0 0 n a
     .ok r.1
 
 /-! ### static_vector: constructors, assignment, swap -/
@@ -404,20 +517,25 @@ def eraseIf (cap : Nat) (k : Kind) (d : V) (p : Nat → Bool) : Except Err (V ×
   .ok (e.1, cnt)
 
 /-- `operator==`: size test, then the four-iterator `equal` (which tests the distances again) -/
-def opEq (a b : V) : Except Err Bool :=
+def opEq (eq : Nat → Nat → Bool) (a b : V) : Except Err Bool :=
   if a.length = b.length then
-    if a.length ≠ b.length then .ok false else equalLoop a b 0 a.length
+    if a.length ≠ b.length then .ok false else equalLoop eq a b 0 a.length
   else .ok false
 
 /-- `operator<` -/
-def opLt (a b : V) : Except Err Bool := lexLoop a b 0 (min a.length b.length)
+def opLt (lt : Nat → Nat → Bool) (a b : V) : Except Err Bool := lexLoop lt a b 0 (min a.length b.length)
 
-/-- all six relational operators as the code derives them: `==`, `!=`, `<`, `<=`, `>`, `>=` -/
-def relOps (a b : V) : Except Err (List Bool) := do
-  let e ← opEq a b
-  let lt ← opLt a b
-  let gt ← opLt b a
-  .ok [e, !e, lt, !gt, gt, !lt]
+/-- all six relational operators as the code derives them, for an element type with `operator<` = `lt` and
+    `operator==` = `eq`: `==` (through `eq` alone), `!= := !(a == b)`, `<` (through `lt` alone),
+    `a <= b := !(b < a)`, `a > b := b < a`, `a >= b := !(a < b)` — the ordering operators never consult `eq` -/
+def relOps (lt eq : Nat → Nat → Bool) (a b : V) : Except Err (List Bool) := do
+  let e ← opEq eq a b
+  let l ← opLt lt a b       -- a < b
+  let ne := !e              -- a != b  =  !(a == b)
+  let g1 ← opLt lt b a      -- a <= b  =  !(b < a)
+  let g ← opLt lt b a       -- a > b   =  b < a
+  let l1 ← opLt lt a b      -- a >= b  =  !(a < b)
+  .ok [e, ne, l, !g1, g, !l1]
 
 /-! ### inplace_vector -/
 
@@ -444,6 +562,24 @@ def ipvTry (cap : Nat) (d : V) (x : Nat) : Except Err (V × Option Nat) :=
     let r ← ipvUnchecked cap d x
     .ok (r.1, some r.2)
 
+/-- `unchecked_push_back(c[i])` / `unchecked_emplace_back(c[i])`: `construct_at(end(), val)` reads the argument through
+    the reference, then the size grows -/
+def ipvUncheckedA (cap : Nat) (d : V) (a : Arg) : Except Err (V × Nat) :=
+  if d.length = cap then .error (.pre "unchecked_push_back: size() != max_size()")
+  else do
+    let x ← rdArg d a
+    let d1 := d ++ [x]
+    setSize cap (d.length + 1)
+    let r ← back d1
+    .ok (d1, r)
+
+/-- `try_push_back(c[i])` / `try_emplace_back(c[i])` -/
+def ipvTryA (cap : Nat) (d : V) (a : Arg) : Except Err (V × Option Nat) :=
+  if d.length = cap then .ok (d, none)
+  else do
+    let r ← ipvUncheckedA cap d a
+    .ok (r.1, some r.2)
+
 def ipvPop (cap : Nat) (d : V) : Except Err V :=
   if d.isEmpty then .error (.pre "pop_back: not empty()")
   else do
@@ -465,7 +601,7 @@ def uninitLoop (src : V) (dst : V) (i : Nat) : Nat → Except Err V
 /-- copy constructor (defaulted member-wise copy for trivial `T`, `uninitialized_copy` otherwise) -/
 def ipvCopyCtor (cap : Nat) (k : Kind) (other : V) : Except Err V :=
   match k with
-  | .triv => .ok other
+  | .triv | .kp => .ok other
   | _ => do
     let d ← uninitLoop other [] 0 other.length
     if d.length > cap then .error .oob else .ok d
@@ -474,7 +610,7 @@ def ipvCopyCtor (cap : Nat) (k : Kind) (other : V) : Except Err V :=
     and `other._size = 0`; returns (new, other after) -/
 def ipvMoveCtor (cap : Nat) (k : Kind) (other : V) : Except Err (V × V) :=
   match k with
-  | .triv => .ok (other, other)
+  | .triv | .kp => .ok (other, other)
   | _ => do
     let d ← uninitLoop other [] 0 other.length
     if d.length > cap then .error .oob else .ok (d, [])
